@@ -108,43 +108,30 @@ pub struct NetCase { pub workers: u8, pub shape: u8, pub requests: Vec<u16>,
     #[serde(default)] pub fresh: bool,
     /// (with fresh) the server runs with a layered configuration: CORS settings in rws.config.toml that the command line overrides with other values -
     /// whatever re-reads or re-applies configuration while requests are in flight shows as a response that differs from the one-at-a-time reference
-    #[serde(default)] pub layered: bool }
+    #[serde(default)] pub layered: bool,
+    /// that many connections (at most N-1) are open and silent while the multiset is served: the others must be answered as if they were alone
+    #[serde(default)] pub silent: u8 }
 
-pub fn eval_net(ctx: &Ctx, docroot: &std::path::Path, c: &NetCase) -> Verdict {
-    let n = c.workers.max(1) as u32;
-    let fresh_tree = if c.fresh { match crate::fw::tree::Tree::materialise(&crate::fw::greq::fixed_tree(), &crate::fw::scratch_base()) { Ok(t) => Some(t), Err(e) => { ctx.inconclusive(&format!("fresh docroot: {}", e)); return Verdict::Discard; } } } else { None };
-    let docroot = fresh_tree.as_ref().map(|t| t.root.as_path()).unwrap_or(docroot);
-    let mut opts = ServerOpts::new(docroot, n);
-    if c.fresh && c.layered {
-        let _ = std::fs::write(docroot.join("rws.config.toml"), "[cors]\nallow_all = false\nallow_origins = ['https://file-only.example']\nallow_methods = ['POST']\nallow_headers = ['x-file']\nallow_credentials = false\nexpose_headers = ['x-file-exposed']\nmax_age = '11'\n");
-        opts.args = vec!["--cors-allow-all=true".into(), "--cors-max-age=33".into(), "--cors-allow-methods=GET,PUT".into(), "--cors-allow-credentials=true".into()];
-    }
-    let srv = match Server::start(&opts) { Ok(s) => s, Err(e) => { ctx.inconclusive(&format!("server start: {}", e)); return Verdict::Discard; } };
-    let mut srv = srv;
-    let limit = Duration::from_secs(10);
-    let reqs: Vec<Vec<u8>> = c.requests.iter().map(|k| pool_request(*k)).collect();
-    let run_serial = |srv: &Server| -> Option<Vec<Vec<u8>>> {
-        let mut serial = vec![];
-        for r in &reqs {
-            let ex = srv.roundtrip(r, limit);
-            if ex.outcome == Outcome::TimedOut { return None; }
-            serial.push(normalise(&ex.bytes));
-        }
-        Some(serial)
-    };
-    let mut serial: Vec<Vec<u8>> = vec![];
-    if !c.fresh { serial = match run_serial(&srv) { Some(s) => s, None => { ctx.inconclusive("serial request timed out"); return Verdict::Discard; } }; }
+static SILENT_SUSPECT: std::sync::atomic::AtomicBool = std::sync::atomic::AtomicBool::new(false);
+
+/// The concurrent phase of a network case: `silent` connections are opened first and held (they say nothing) until every response has been collected.
+fn concurrent_phase(srv: &mut Server, reqs: &[Vec<u8>], shape: u8, limit: Duration, silent: usize) -> Vec<(Vec<u8>, Outcome, Instant, Instant)> {
+    let mut held = vec![];
+    for _ in 0..silent { if let Ok(s) = srv.connect() { held.push(s); } }
+    if silent > 0 { std::thread::sleep(Duration::from_millis(10)); }
     let mut got: Vec<(Vec<u8>, Outcome, Instant, Instant)> = vec![];
-    match c.shape % 3 {
+    match shape % 3 {
         0 => {
             // all at once: fully sent into the backlog of the stopped server
             srv.sigstop();
             let t0 = Instant::now();
             let mut conns = vec![];
-            for r in &reqs { match srv.connect() { Ok(mut s) => { let _ = s.write_all(r); conns.push(Some(s)); } Err(_) => conns.push(None) } }
+            for r in reqs { match srv.connect() { Ok(mut s) => { let _ = s.write_all(r); conns.push(Some(s)); } Err(_) => conns.push(None) } }
             srv.sigcont();
+            // the connections are read one after the other: once one has stayed silent for the whole limit the others have had that time too
+            let mut lim = limit;
             for s in conns.into_iter() {
-                match s { Some(mut s) => { let ex = net::read_all(&mut s, limit); got.push((ex.bytes, ex.outcome, t0, Instant::now())); } None => got.push((vec![], Outcome::ConnectFailed("connect".into()), t0, Instant::now())) }
+                match s { Some(mut s) => { let ex = net::read_all(&mut s, lim); if ex.outcome == Outcome::TimedOut && ex.bytes.is_empty() { lim = Duration::from_millis(300); } got.push((ex.bytes, ex.outcome, t0, Instant::now())); } None => got.push((vec![], Outcome::ConnectFailed("connect".into()), t0, Instant::now())) }
             }
         }
         shape => {
@@ -163,6 +150,51 @@ pub fn eval_net(ctx: &Ctx, docroot: &std::path::Path, c: &NetCase) -> Verdict {
             }
             for h in hs { got.push(h.join().unwrap_or((vec![], Outcome::ConnectFailed("thread".into()), Instant::now(), Instant::now()))); }
         }
+    }
+    drop(held);
+    got
+}
+
+pub fn eval_net(ctx: &Ctx, docroot: &std::path::Path, c: &NetCase) -> Verdict {
+    let n = c.workers.max(1) as u32;
+    let fresh_tree = if c.fresh { match crate::fw::tree::Tree::materialise(&crate::fw::greq::fixed_tree(), &crate::fw::scratch_base()) { Ok(t) => Some(t), Err(e) => { ctx.inconclusive(&format!("fresh docroot: {}", e)); return Verdict::Discard; } } } else { None };
+    let docroot = fresh_tree.as_ref().map(|t| t.root.as_path()).unwrap_or(docroot);
+    let mut opts = ServerOpts::new(docroot, n);
+    if c.fresh && c.layered {
+        let _ = std::fs::write(docroot.join("rws.config.toml"), "[cors]\nallow_all = false\nallow_origins = ['https://file-only.example']\nallow_methods = ['POST']\nallow_headers = ['x-file']\nallow_credentials = false\nexpose_headers = ['x-file-exposed']\nmax_age = '11'\n");
+        opts.args = vec!["--cors-allow-all=true".into(), "--cors-max-age=33".into(), "--cors-allow-methods=GET,PUT".into(), "--cors-allow-credentials=true".into()];
+    }
+    let srv = match Server::start(&opts) { Ok(s) => s, Err(e) => { ctx.inconclusive(&format!("server start: {}", e)); return Verdict::Discard; } };
+    let mut srv = srv;
+    // once the silent-peer violation has been confirmed in this process, later evaluations (shrinking re-runs the failing case many times) wait 1 s and do not re-confirm
+    let suspect = SILENT_SUSPECT.load(std::sync::atomic::Ordering::SeqCst);
+    let limit = Duration::from_secs(if suspect && c.silent > 0 { 1 } else { 10 });
+    let reqs: Vec<Vec<u8>> = c.requests.iter().map(|k| pool_request(*k)).collect();
+    let run_serial = |srv: &Server| -> Option<Vec<Vec<u8>>> {
+        let mut serial = vec![];
+        for r in &reqs {
+            let ex = srv.roundtrip(r, limit);
+            if ex.outcome == Outcome::TimedOut { return None; }
+            serial.push(normalise(&ex.bytes));
+        }
+        Some(serial)
+    };
+    let mut serial: Vec<Vec<u8>> = vec![];
+    if !c.fresh { serial = match run_serial(&srv) { Some(s) => s, None => { ctx.inconclusive("serial request timed out"); return Verdict::Discard; } }; }
+    // silent peers: connections that are open and say nothing while the multiset is served (fewer than N, so a worker is always free for the others)
+    let silent = if n >= 2 { (c.silent as u32).min(n - 1) as usize } else { 0 };
+    let mut got = concurrent_phase(&mut srv, &reqs, c.shape, limit, silent);
+    let unanswered = |g: &Vec<(Vec<u8>, Outcome, Instant, Instant)>| g.iter().filter(|x| x.1 == Outcome::TimedOut && x.0.is_empty()).count();
+    if silent > 0 && unanswered(&got) > 0 && srv.exited().is_none() && srv.missing_workers().is_empty() {
+        // differential and repeated: the same multiset without the silent peers, then with them again
+        let without = if suspect { vec![] } else { concurrent_phase(&mut srv, &reqs, c.shape, limit, 0) };
+        let again = if suspect { got.clone() } else { concurrent_phase(&mut srv, &reqs, c.shape, limit, silent) };
+        if unanswered(&without) == 0 && unanswered(&again) > 0 {
+            SILENT_SUSPECT.store(true, std::sync::atomic::Ordering::SeqCst);
+            return ctx.judge(vec![("response-withheld-while-unrelated-silent-connections-are-open".to_string(), format!("N={} shape {}: with {} silent connection(s) open {} of {} requests got no response within {:?} (observed twice); without them every request was answered", n, c.shape % 3, silent, unanswered(&again), reqs.len(), limit))], true, vec!["silent-peers-held"]);
+        }
+        ctx.inconclusive("requests unanswered beside silent peers, not repeatable");
+        return Verdict::Discard;
     }
     let mut problems = vec![];
     if let Some(e) = srv.exited() { problems.push(("server-process-gone".to_string(), e)); }
@@ -186,6 +218,7 @@ pub fn eval_net(ctx: &Ctx, docroot: &std::path::Path, c: &NetCase) -> Verdict {
     classes.push(match n { 1 => "workers-1", 2 => "workers-2", 4 => "workers-4", 8 => "workers-8", _ => "workers-16" });
     if overlapping { classes.push("overlap-confirmed"); }
     if c.fresh { classes.push("fresh-docroot-and-server-concurrent-phase-first"); }
+    if silent > 0 { classes.push("silent-peers-held"); }
     if c.fresh && c.layered { classes.push("layered-configuration-(file-overridden-by-command-line)"); }
     ctx.judge(problems, overlapping && distinct.len() >= 2, classes)
 }
@@ -197,7 +230,7 @@ pub fn run(ctx: &Ctx) {
     let reqs = prop_oneof![3 => proptest::collection::vec(any::<u16>(), 2..12), 2 => proptest::collection::vec(any::<u16>(), 12..=64)];
     ctx.prop("inproc", ctx.share(ctx.scale(2400, 60_000)), (reqs.clone(), proptest::bool::weighted(0.2)).prop_map(|(requests, fresh)| InprocCase { requests, fresh }), |c| eval_inproc(ctx, c));
     let root = tree.root.clone();
-    let nc = (prop::sample::select(vec![1u8, 2, 4, 8, 16]), 0u8..3, reqs, proptest::bool::weighted(0.3), any::<bool>()).prop_map(|(workers, shape, requests, fresh, layered)| NetCase { workers, shape, requests, fresh, layered });
+    let nc = (prop::sample::select(vec![1u8, 2, 4, 8, 16]), 0u8..3, reqs, proptest::bool::weighted(0.3), any::<bool>(), prop_oneof![3 => Just(0u8), 2 => 1u8..4]).prop_map(|(workers, shape, requests, fresh, layered, silent)| NetCase { workers, shape, requests, fresh, layered, silent });
     ctx.prop("network", ctx.share(ctx.scale(320, 12_000)), nc, |c| eval_net(ctx, &root, c));
     let _ = std::env::set_current_dir("/");
     drop(tree);
